@@ -21,6 +21,10 @@ def evaluate(e, env):
         k = '=' + norm(e)
         if k in env:
             return env[k]
+        if isinstance(e, ast.Compare) and len(e.ops) == 1 and isinstance(e.ops[0], (ast.IsNot, ast.NotEq)):
+            k = '=' + norm(ast.Compare(left=e.left, ops=[ast.Is() if isinstance(e.ops[0], ast.IsNot) else ast.Eq()], comparators=e.comparators))
+            if k in env:
+                return not env[k]
     if isinstance(e, ast.Constant):
         return e.value
     if isinstance(e, ast.Name):
@@ -86,6 +90,10 @@ def _refine(e, pol, env, watch):
             elif isinstance(e.ops[0], (ast.IsNot, ast.NotEq)):
                 env['=' + k] = (not c) if pol else c
         return [env]
+    if isinstance(e, ast.Compare) and len(e.ops) == 1 and isinstance(e.ops[0], (ast.IsNot, ast.NotEq)):
+        # `a is not b` is `not (a is b)`: one key per relation
+        pos = ast.Compare(left=e.left, ops=[ast.Is() if isinstance(e.ops[0], ast.IsNot) else ast.Eq()], comparators=e.comparators)
+        e, pol = pos, not pol
     k = norm(e)
     if k in watch:
         if ('=' + k) in env and env['=' + k] != pol:
@@ -132,6 +140,10 @@ def simulate(g, start, stops, env, track=(), watch=()):
                         new.pop('=' + dt, None)
                 for nm in ast.walk(t):
                     if isinstance(nm, ast.Name) and isinstance(nm.ctx, ast.Store):
+                        # what was known about expressions over this name is void
+                        import re as _re
+                        for k_ in [k_ for k_ in new if k_.startswith('=') and _re.search(r'(?<![\w.])' + _re.escape(nm.id) + r'(?!\w)', k_[1:])]:
+                            del new[k_]
                         val = evaluate(v, e) if (v is not None and isinstance(t, ast.Name)) else UNKNOWN
                         if val is UNKNOWN or not (val is None or isinstance(val, bool) or (isinstance(val, tuple) and val and val[0] == 'const')):
                             new.pop(nm.id, None)
@@ -187,7 +199,7 @@ def must_atoms(g, node, fnode, params=()):
             continue
         for lab, pol in (('true', True), ('false', False)):
             if guarded_by_edge(g, node, x, lab):
-                _atoms(expand_locals(x.ast, fnode, params=params), pol, out)
+                _atoms(expand_locals(x.ast, fnode, params=params, observers=True), pol, out)
     return out
 
 
